@@ -239,6 +239,104 @@ def self_ty_of(it):
     return ""
 
 
+def find_index_loops(fn):
+    """Counting loops over a collection: `let mut i = 0; while i < v.len() { .. v[i] ..; i += 1 }`.
+    {header bb: {"counter": local, "coll": place json of v}} for loops with exactly this shape: the counter has one definition
+    outside the loop and one inside, `i = i + 1`, in a block that dominates every back edge; a guard `i < len(v)` inside the
+    loop whose false edge leaves the loop.  The engine analyses such a loop like `for item in v` (counter = index@bbH,
+    v[counter] = item@bbH); anything that deviates from the shape is left alone."""
+    cached = getattr(fn, "_index_loops", None)
+    if cached is not None:
+        return cached
+    out = {}
+    try:
+        loops = fn.natural_loops()
+        defs = fn.defs()
+        backs = fn.back_edges()
+        for h, body in loops.items():
+            srcs = [a for a, b in backs if b == h]
+            for i, ds in defs.items():
+                if i >= len(fn.locals) or fn.locals[i]["ty"] != "usize":
+                    continue
+                if any(d["kind"] == "borrow_mut" for d in ds):
+                    continue
+                full = [d for d in ds if not d["partial"]]
+                if len(full) != 2 or len(ds) != 2:
+                    continue
+                ins = [d for d in full if d["bb"] in body]
+                outs = [d for d in full if d["bb"] not in body]
+                if len(ins) != 1 or len(outs) != 1 or ins[0]["kind"] != "assign" or outs[0]["kind"] != "assign":
+                    continue
+                rv = ins[0]["stmt"]["rv"]
+                ok_inc = False
+                if rv["k"] == "use" and rv["op"]["k"] in ("copy", "move") and len(rv["op"]["p"]["pj"]) == 1 and rv["op"]["p"]["pj"][0]["k"] == "field" and rv["op"]["p"]["pj"][0]["i"] == 0:
+                    d2 = fn.single_def(rv["op"]["p"]["l"])
+                    if d2 and d2["kind"] == "assign" and d2["stmt"]["rv"]["k"] == "binop" and d2["stmt"]["rv"]["op"] in ("AddWithOverflow", "Add"):
+                        a, b = d2["stmt"]["rv"]["a"], d2["stmt"]["rv"]["b"]
+                        ok_inc = a["k"] in ("copy", "move") and a["p"]["l"] == i and not a["p"]["pj"] and b["k"] == "const" and str(b.get("val", b.get("s", ""))).split("_")[0] in ("1",)
+                elif rv["k"] == "binop" and rv["op"] == "Add":
+                    a, b = rv["a"], rv["b"]
+                    ok_inc = a["k"] in ("copy", "move") and a["p"]["l"] == i and not a["p"]["pj"] and b["k"] == "const" and str(b.get("val", b.get("s", ""))).split("_")[0] in ("1",)
+                if not ok_inc or not all(fn.dominates(ins[0]["bb"], s_) for s_ in srcs):
+                    continue
+                # the guard
+                coll = None
+                for g in sorted(body):
+                    t = fn.term(g)
+                    if t["k"] != "switch" or t.get("discr_ty") != "bool":
+                        continue
+                    dl = t["discr"]["p"]["l"] if t["discr"].get("k") in ("copy", "move") and not t["discr"]["p"]["pj"] else None
+                    dd = fn.single_def(dl) if dl is not None else None
+                    if not (dd and dd["kind"] == "assign" and dd["stmt"]["rv"]["k"] == "binop" and dd["stmt"]["rv"]["op"] == "Lt"):
+                        continue
+                    a, b = dd["stmt"]["rv"]["a"], dd["stmt"]["rv"]["b"]
+                    if a["k"] not in ("copy", "move") or b["k"] not in ("copy", "move") or a["p"]["pj"] or b["p"]["pj"]:
+                        continue
+                    da = fn.single_def(a["p"]["l"])
+                    is_i = a["p"]["l"] == i or (da and da["kind"] == "assign" and da["stmt"]["rv"]["k"] == "use" and da["stmt"]["rv"]["op"]["k"] in ("copy", "move") and da["stmt"]["rv"]["op"]["p"]["l"] == i and not da["stmt"]["rv"]["op"]["p"]["pj"])
+                    db = fn.single_def(b["p"]["l"])
+                    if not is_i or not db:
+                        continue
+                    # false edge leaves the loop, true edge stays
+                    false_t = [tb for v_, tb in t["targets"] if v_ == 0]
+                    true_t = t["otherwise"] if false_t else None
+                    if not false_t or false_t[0] in body or true_t not in body:
+                        continue
+                    if not all(fn.dominates(g, x) for x in body if x not in (h,) and not fn.dominates(x, g)):
+                        continue
+                    cplace = None
+                    if db["kind"] == "call" and re.search(r"Vec::<.*>::len$|<impl \[.*\]>::len$", M.call_name(db["term"])) and db["term"]["args"] and db["term"]["args"][0].get("k") in ("copy", "move"):
+                        dr = fn.single_def(db["term"]["args"][0]["p"]["l"])
+                        if dr and dr["kind"] == "assign" and dr["stmt"]["rv"]["k"] == "ref":
+                            cplace = dr["stmt"]["rv"]["p"]
+                    elif db["kind"] == "assign" and db["stmt"]["rv"]["k"] in ("len",) :
+                        cplace = db["stmt"]["rv"].get("p")
+                    elif db["kind"] == "assign" and db["stmt"]["rv"]["k"] == "unop" and db["stmt"]["rv"]["op"] == "PtrMetadata" and db["stmt"]["rv"]["a"].get("k") in ("copy", "move"):
+                        cplace = db["stmt"]["rv"]["a"]["p"]
+                    if cplace is not None:
+                        coll = cplace
+                        break
+                if coll is not None:
+                    # a collection that is changed inside the loop (a work list that grows while it is processed) is not a
+                    # plain walk over its elements
+                    mutated = False
+                    for x in body:
+                        for st in fn.blocks[x]["stmts"]:
+                            if st["k"] == "assign":
+                                rv_ = st["rv"]
+                                if rv_["k"] in ("ref", "rawptr") and rv_.get("mut") and rv_["p"]["l"] == coll["l"] and [e_.get("k") for e_ in rv_["p"]["pj"]][:len(coll["pj"])] == [e_.get("k") for e_ in coll["pj"]]:
+                                    mutated = True
+                                if st["p"]["l"] == coll["l"] and coll["l"] >= 1:
+                                    mutated = True
+                    if not mutated:
+                        out[h] = {"counter": i, "coll": coll, "inc_bb": ins[0]["bb"]}
+                    break
+    except Exception:
+        out = {}
+    fn._index_loops = out
+    return out
+
+
 class Engine:
     _next_frame = [0]
 
@@ -250,6 +348,7 @@ class Engine:
         self.stack = tuple(stack) + (fn.name,)
         self.desugar = desugar
         self.inline = inline
+        self.index_loops = find_index_loops(fn) if facts is not None else {}
         self.max_depth = max_depth
         self.fn = fn
         self.facts = facts
@@ -350,6 +449,12 @@ class Engine:
                 return v
             return ("downcast", v, st[1])
         if k == "i":
+            ix = st[1]
+            if ix[0] == "sym" and str(ix[1]).startswith("index@bb"):
+                h_ = int(str(ix[1])[len("index@bb"):])
+                cv = path.assume.get(("index-loop", h_))
+                if cv is not None and (cv == v or (v[0] == "ref" and self.deref_val(path, v) == cv)):
+                    return ("sym", "item@bb%d" % h_)
             return ("index", v, st[1])
         return ("proj", v, st[1])
 
@@ -630,6 +735,15 @@ class Engine:
             return
         path.assume[v] = outcome
         path.conds.append((v, outcome))
+        if v[0] == "binop" and v[1] == "Lt" and isinstance(outcome, bool) and v[2][0] == "sym" and str(v[2][1]).startswith("index@bb"):
+            h_ = int(str(v[2][1])[len("index@bb"):])
+            cv = path.assume.get(("index-loop", h_))
+            if cv is not None:
+                # the guard of a counting loop over a collection: one more element / no element left
+                if outcome:
+                    path.events.append(("iter-item", h_, "index-loop", cv, ("sym", "item@bb%d" % h_)))
+                else:
+                    path.events.append(("iter-exhausted", h_, "index-loop", cv))
 
     # ---- calls ---------------------------------------------------------------------------------
     def deref_val(self, path, v):
@@ -1461,6 +1575,18 @@ class Engine:
         if path.visits[vk] > self.visit_limit:
             path.end = ("loop-limit", bb)
             return [(None, path)]
+        il = self.index_loops.get(bb)
+        if il is not None and path.visits[vk] == 1 and ("index-loop", bb) not in path.assume:
+            cur = path.locals.get((self.fid, il["counter"]))
+            if cur == ("int", 0):
+                # entering a counting loop over a collection: analysed as `for item in collection` (see find_index_loops)
+                try:
+                    cv = self.read_loc(path, self.loc_of_place(path, il["coll"]))
+                except Exception:
+                    cv = None
+                if cv is not None:
+                    path.assume[("index-loop", bb)] = cv
+                    path.locals[(self.fid, il["counter"])] = ("sym", "index@bb%d" % bb)
         b = fn.blocks[bb]
         for i, s in enumerate(b["stmts"]):
             if s["k"] == "assign":
@@ -1475,6 +1601,13 @@ class Engine:
         def go(target, pth):
             if (bb, target) in self.cut:
                 pth.end = ("cut", bb, target)
+                il_ = self.index_loops.get(target)
+                if il_ is not None and ("index-loop", target) in pth.assume:
+                    # the next iteration must be about the next element: counter == counter + 1 at the back edge
+                    cv_ = pth.locals.get((self.fid, il_["counter"]))
+                    lin_ = linear(cv_) if cv_ is not None else None
+                    if lin_ != ({("sym", "index@bb%d" % target): 1}, 1):
+                        pth.end = ("cut-noncanonical", bb, target)
                 return (None, pth)
             if target in self.stop:
                 pth.end = ("stop", target)
